@@ -495,7 +495,16 @@ fn thread_body(c: &SC, clock: &MockClock, cfg: &Cfg, sh: &Arc<Shared>, me: usize
                     c.insert(K::new((i % keys.max(1) as u16) as u8), V::new(vid + i as u32, 1));
                 }
                 sh.m.lock().unwrap().atomic[me] = false;
-                Obs::Unit
+                // "overshoots by no more than its bounded write queue plus one entry per
+                // inserting thread": whatever the other threads are doing (one may be
+                // parked inside a maintenance pass), the write log never holds more than
+                // its 384 slots when a burst of inserts returns
+                let (_rq, wq) = c.verif_queue_lens();
+                if wq > 384 {
+                    Obs::Items(vec![(253, wq as u32)])
+                } else {
+                    Obs::Unit
+                }
             }
         };
         rec.obs = obs;
@@ -701,6 +710,13 @@ fn superseded(all: &[Rec], ins: &Rec, k: u8, before: u64) -> Option<String> {
 }
 
 fn check_history(prog: &Program, all: &[Rec], viol: &mut Vec<Violation>) {
+    for r in all {
+        if let (TOp::Burst(..), Obs::Items(left)) = (&r.op, &r.obs) {
+            let d = format!("T{}#{} {}: {} write ops are queued when the burst returns; the write log is bounded by 384, which is what bounds the overshoot between maintenance runs", r.thread, r.idx, r.op.text(), left[0].1);
+            viol.push(Violation { prop: "C04", sig: "sched:write-log-above-its-bound".into(), detail: d.clone(), witness: String::new() });
+            viol.push(Violation { prop: "C09", sig: "sched:write-log-above-its-bound".into(), detail: d, witness: String::new() });
+        }
+    }
     // values written inside a Burst are not recorded one by one
     if prog.threads.iter().flatten().any(|o| matches!(o, TOp::Burst(..))) {
         return;
@@ -1485,6 +1501,26 @@ pub fn family(name: &str, tier: &str) -> Vec<Program> {
                 let mut c = base(cap, None);
                 c.nkeys = 4;
                 out.push(Program { cfg: c.clone(), prefix: vec![], threads: vec![vec![TOp::Ins(0, 1), TOp::Ins(1, 1)], vec![TOp::Ins(2, 1), TOp::Ins(3, 1)], vec![TOp::Sync]] });
+            }
+            // two maintenance passes that overlap (explicit sync() calls do not go through
+            // the housekeeper's flag; the deques mutex serialises them): the second must
+            // work on what the first published
+            for cap in [Some(1u64), Some(2)] {
+                let mut c = base(cap, None);
+                c.nkeys = 4;
+                out.push(Program { cfg: c.clone(), prefix: vec![], threads: vec![vec![TOp::Ins(0, 1), TOp::Sync], vec![TOp::Ins(1, 1), TOp::Sync]] });
+                out.push(Program { cfg: c.clone(), prefix: vec![Op::Ins(0, 1)], threads: vec![vec![TOp::Sync], vec![TOp::Ins(1, 1), TOp::Sync]] });
+                out.push(Program { cfg: c.clone(), prefix: vec![Op::Ins(0, 1), Op::Ins(1, 1)], threads: vec![vec![TOp::Sync, TOp::Ins(2, 1)], vec![TOp::Ins(3, 1), TOp::Sync]] });
+            }
+            // the overshoot bound while one thread is parked inside a maintenance pass
+            // and another keeps inserting (the bounded write log is what stops it)
+            for cap in [Some(1u64), Some(10)] {
+                let mut c = base(cap, None);
+                c.nkeys = 5;
+                out.push(Program { cfg: c.clone(), prefix: vec![Op::Ins(0, 1)], threads: vec![vec![TOp::Sync], vec![TOp::Burst(390, 5)]] });
+                let mut c2 = c.clone();
+                c2.beyond = false;
+                out.push(Program { cfg: c2, prefix: vec![Op::Ins(0, 1)], threads: vec![vec![TOp::Get(0)], vec![TOp::Burst(390, 5)]] });
             }
         }
         other => panic!("unknown program family {other}"),
